@@ -10,8 +10,6 @@ import (
 	"github.com/yuin/goldmark/parser"
 	"github.com/yuin/goldmark/text"
 
-	mathjax "github.com/litao91/goldmark-mathjax"
-
 	"github.com/zerx-lab/wordZero/pkg/document"
 )
 
@@ -51,10 +49,11 @@ func NewConverter(opts *ConvertOptions) *Converter {
 	}
 	if opts.EnableMath {
 		// 使用标准的LaTeX数学公式分隔符: $...$ 用于行内公式, $$...$$ 用于块级公式
-		extensions = append(extensions, mathjax.NewMathJax(
-			mathjax.WithInlineDelim("$", "$"),
-			mathjax.WithBlockDelim("$$", "$$"),
-		))
+		// safeMathJax 与 mathjax.NewMathJax 注册相同的解析器/渲染器，但块解析器不会 panic（见 mathjax_safe.go）
+		extensions = append(extensions, &safeMathJax{
+			inlineStart: "$", inlineEnd: "$",
+			blockStart: "$$", blockEnd: "$$",
+		})
 	}
 
 	md := goldmark.New(
